@@ -93,7 +93,9 @@ def enc_line(i, mode, sh, d, keep=1):
 def dec_line(i, mode, sh, d, c, ev='dec', pf=None):
     off = f"{sh.get('oc', 0)},{sh.get('om', 0)},{(sh.get('oc', 0) + 3) % 8},{(sh.get('om', 0) + 1) % 4},{(sh.get('oc', 0) + 2) % 4}"
     sel = (sh['v'] // 64 + len(c) + len(d['ad']) + sh.get('alias', 0)) % 2
-    return (f"{ev} id={i} mode={mode} v={sh['v']} k={hx(d['k'])} n={hx(d['n'])} ad={nullable(d['ad'], sel)} c={hx(c)} mnull={1 - sel} "
+    # what the caller's length variable holds before the call: SIZE_MAX, 0, 1, one less than / exactly the plaintext length
+    ml0 = [-1, 0, 1, max(0, len(c) - 9), max(0, len(c) - 8), 3][(len(c) + 3 * len(d['ad']) + sh['v'] // 64 + d['k'][0]) % 6]
+    return (f"{ev} id={i} mode={mode} v={sh['v']} k={hx(d['k'])} n={hx(d['n'])} ad={nullable(d['ad'], sel)} c={hx(c)} mnull={1 - sel} mlen0={ml0} "
             f"alias={sh.get('alias', 0)} pl={sh.get('pl', 'e')} off={off} pf={pf if pf is not None else sh.get('pf', 165)}")
 
 
